@@ -357,6 +357,9 @@ fn main() {
     quiet_panics();
     let mut st = Stats::default();
     part_a(&mut st, &a);
+    let mut qs = QStats::default();
+    part_b_low(&mut qs, &a);
+    part_b_loop(&mut qs, &a);
     let m = |h: &BTreeMap<usize, u64>| {
         format!("{{{}}}", h.iter().map(|(k, v)| format!("\"{}\":{}", k, v)).collect::<Vec<_>>().join(","))
     };
@@ -370,4 +373,512 @@ fn main() {
         m(&st.seq_len_hist),
         m(&st.out_len_hist)
     ));
+    let ms = |h: &BTreeMap<String, u64>| {
+        format!("{{{}}}", h.iter().map(|(k, v)| format!("\"{}\":{}", k, v)).collect::<Vec<_>>().join(","))
+    };
+    stat(format!(
+        "{{\"part\":\"B\",\"histories\":{},\"queue_steps\":{},\"by_op\":{},\"outcomes\":{},\"rows_in_queue_after_step\":{},\"client_loops\":{},\"max_steps_in_a_loop\":{}}}",
+        qs.histories, qs.steps, ms(&qs.by_op), ms(&qs.outcomes), m(&qs.queue_len_hist), qs.loops, qs.loop_steps_max
+    ));
+}
+
+// =====================================================================================
+// Part B — the scan queue on the SQLite backend
+// =====================================================================================
+mod qb {
+    use super::{pname, PRIOS};
+    use incrementalmerkletree::Position;
+    use nonempty::NonEmpty;
+    use rusqlite::Connection;
+    use vcommon::*;
+    use zcash_client_backend::data_api::chain::{ChainState, CommitmentTreeRoot};
+    use zcash_client_backend::data_api::ll::LowLevelWalletWrite;
+    use zcash_client_backend::data_api::scanning::{ScanPriority, ScanRange};
+    use zcash_client_backend::data_api::testing::{InitialChainState, TestBuilder, TestState};
+    use zcash_client_backend::data_api::{WalletCommitmentTrees, WalletRead, WalletWrite};
+    use zcash_client_sqlite::error::SqliteClientError;
+    use zcash_client_sqlite::testing::db::{TestDb, TestDbFactory};
+    use zcash_client_sqlite::testing::BlockCache;
+    use zcash_primitives::block::BlockHash;
+    use zcash_protocol::consensus::{BlockHeight, NetworkUpgrade, Parameters};
+    use zcash_protocol::local_consensus::LocalNetwork;
+    use zcash_protocol::ShieldedPool;
+
+    pub type St = TestState<BlockCache, TestDb, LocalNetwork>;
+
+    #[derive(Clone, Debug, PartialEq, Eq)]
+    pub struct Row {
+        pub s: u32,
+        pub e: u32,
+        pub p: String,
+    }
+    impl Row {
+        pub fn coq(&self) -> String {
+            format!("R {} {} {}", self.s, self.e, self.p)
+        }
+    }
+
+    fn code_name(c: i64) -> String {
+        match c {
+            0 => "Ignored".into(),
+            10 => "Scanned".into(),
+            20 => "Historic".into(),
+            30 => "OpenAdjacent".into(),
+            40 => "FoundNote".into(),
+            50 => "ChainTip".into(),
+            60 => "Verify".into(),
+            x => format!("(BadCode {})", x),
+        }
+    }
+
+    pub fn queue(conn: &Connection) -> Vec<Row> {
+        let mut stmt = conn
+            .prepare("SELECT block_range_start, block_range_end, priority FROM scan_queue ORDER BY block_range_start")
+            .unwrap();
+        stmt.query_map([], |r| {
+            Ok(Row { s: r.get::<_, u32>(0)?, e: r.get::<_, u32>(1)?, p: code_name(r.get::<_, i64>(2)?) })
+        })
+        .unwrap()
+        .map(|r| r.unwrap())
+        .collect()
+    }
+
+    fn shards(conn: &Connection, table: &str) -> String {
+        let mut stmt = conn
+            .prepare(&format!("SELECT shard_index, subtree_end_height FROM {} ORDER BY shard_index", table))
+            .unwrap();
+        let v: Vec<String> = stmt
+            .query_map([], |r| Ok((r.get::<_, i64>(0)?, r.get::<_, Option<u32>>(1)?)))
+            .unwrap()
+            .map(|r| {
+                let (i, e) = r.unwrap();
+                format!("({}, {})", i, opt(e.map(|x| x.to_string())))
+            })
+            .collect();
+        list(v)
+    }
+
+    pub fn ctx(st: &St) -> String {
+        let conn = st.wallet().conn();
+        let act = |nu| opt(st.network().activation_height(nu).map(|h| u32::from(h).to_string()));
+        let max_scanned: Option<u32> = conn.query_row("SELECT MAX(height) FROM blocks", [], |r| r.get(0)).unwrap();
+        let birthday: Option<u32> = conn.query_row("SELECT MIN(birthday_height) FROM accounts", [], |r| r.get(0)).unwrap();
+        format!(
+            "(Ctx {} {} {} {} {} {} {} {})",
+            act(NetworkUpgrade::Sapling),
+            act(NetworkUpgrade::Nu5),
+            act(NetworkUpgrade::Nu6_3),
+            opt(max_scanned.map(|x| x.to_string())),
+            opt(birthday.map(|x| x.to_string())),
+            shards(conn, "sapling_tree_shards"),
+            shards(conn, "orchard_tree_shards"),
+            shards(conn, "ironwood_tree_shards"),
+        )
+    }
+
+    pub fn max_scanned(st: &St) -> Option<u32> {
+        st.wallet().conn().query_row("SELECT MAX(height) FROM blocks", [], |r| r.get(0)).unwrap()
+    }
+    pub fn birthday(st: &St) -> Option<u32> {
+        st.wallet().conn().query_row("SELECT MIN(birthday_height) FROM accounts", [], |r| r.get(0)).unwrap()
+    }
+
+    #[derive(Clone, Debug)]
+    pub enum Op {
+        Tip(u32),
+        Scan { s: u32, e: u32, sap: Vec<u64>, orc: Vec<u64>, prime: bool },
+        Rescan(Vec<(u32, u32)>, ScanPriority),
+        Prune(u32, Option<ScanPriority>),
+    }
+
+    impl Op {
+        pub fn coq(&self) -> String {
+            match self {
+                Op::Tip(t) => format!("(OpTip {})", t),
+                Op::Scan { s, e, sap, orc, .. } => format!(
+                    "(OpScan {} {} {} {} [])",
+                    s,
+                    e,
+                    list(sap.iter().map(|x| x.to_string())),
+                    list(orc.iter().map(|x| x.to_string()))
+                ),
+                Op::Rescan(rs, p) => format!(
+                    "(OpRescan {} {})",
+                    list(rs.iter().map(|(a, b)| format!("({}, {})", a, b))),
+                    pname(*p)
+                ),
+                Op::Prune(h, r) => format!("(OpPrune {} {})", h, opt(r.map(|p| pname(p).to_string()))),
+            }
+        }
+    }
+
+    fn err_name(e: &SqliteClientError) -> &'static str {
+        match e {
+            SqliteClientError::DbError(rusqlite::Error::SqliteFailure(f, _))
+                if f.code == rusqlite::ErrorCode::ConstraintViolation => "DbConstraint",
+            _ => "OtherErr",
+        }
+    }
+
+    /// Insert a minimal `blocks` row (test priming that mimics what put_blocks stores before it
+    /// calls scan_complete); only MIN/MAX(height) of the table are read by the queue code.
+    pub fn prime_block(st: &mut St, h: u32) {
+        st.wallet_mut()
+            .conn_mut()
+            .execute(
+                "INSERT OR IGNORE INTO blocks (height, hash, time, sapling_tree, sapling_commitment_tree_size,
+                   orchard_commitment_tree_size, ironwood_commitment_tree_size, sapling_output_count, orchard_action_count, ironwood_action_count)
+                 VALUES (?1, zeroblob(32), 0, x'00', 0, 0, 0, 0, 0, 0)",
+                [h],
+            )
+            .unwrap();
+    }
+
+    /// Execute one operation; returns the outcome rendered as a Coq `qres (list sr)` term.
+    pub fn exec(st: &mut St, op: &Op) -> (String, &'static str) {
+        let r: Option<Result<(), SqliteClientError>> = match op.clone() {
+            Op::Tip(t) => catch(|| st.wallet_mut().update_chain_tip(BlockHeight::from(t))),
+            Op::Scan { s, e, sap, orc, prime } => {
+                let mut pos: Vec<(ShieldedPool, Position)> = vec![];
+                pos.extend(sap.iter().map(|p| (ShieldedPool::Sapling, Position::from(*p))));
+                pos.extend(orc.iter().map(|p| (ShieldedPool::Orchard, Position::from(*p))));
+                let r = catch(|| {
+                    st.wallet_mut().db_mut().transactionally::<_, _, SqliteClientError>(|wdb| {
+                        wdb.notify_scan_complete(BlockHeight::from(s)..BlockHeight::from(e), &pos)
+                    })
+                });
+                if prime && matches!(r, Some(Ok(()))) && e > s {
+                    prime_block(st, s);
+                    prime_block(st, e - 1);
+                }
+                r
+            }
+            Op::Rescan(rs, p) => catch(|| {
+                let v: Vec<std::ops::Range<BlockHeight>> =
+                    rs.iter().map(|(a, b)| BlockHeight::from(*a)..BlockHeight::from(*b)).collect();
+                st.wallet_mut().db_mut().queue_rescans(NonEmpty::from_vec(v).unwrap(), p)
+            }),
+            Op::Prune(h, r) => catch(|| st.wallet_mut().prune_scan_queue_below(BlockHeight::from(h), r).map(|_| ())),
+        };
+        match r {
+            None => (PANIC.into(), "panic"),
+            Some(Err(e)) => (err(err_name(&e)), "err"),
+            Some(Ok(())) => {
+                let q = queue(st.wallet().conn());
+                (ok(list(q.iter().map(|r| r.coq()))), "ok")
+            }
+        }
+    }
+
+    pub fn suggest(st: &St) -> String {
+        let v = st.wallet().suggest_scan_ranges().unwrap();
+        list(v.iter().map(|r| {
+            format!("R {} {} {}", u32::from(r.block_range().start), u32::from(r.block_range().end), pname(r.priority()))
+        }))
+    }
+
+    pub fn suggested(st: &St) -> Vec<ScanRange> {
+        st.wallet().suggest_scan_ranges().unwrap()
+    }
+
+    /// Build a wallet: birthday at Sapling activation + `offset` (0 = account from activation),
+    /// optionally with completed-shard metadata ending `roots_before` blocks below the birthday.
+    pub fn build(offset: u32, roots_before: Option<u32>) -> St {
+        let b = TestBuilder::new()
+            .with_data_store_factory(TestDbFactory::default())
+            .with_block_cache(BlockCache::new());
+        if offset == 0 {
+            b.with_account_from_sapling_activation(BlockHash([0; 32])).build()
+        } else {
+            b.with_initial_chain_state(|_rng, network| {
+                let h = network.activation_height(NetworkUpgrade::Sapling).unwrap() + offset - 1;
+                InitialChainState {
+                    chain_state: ChainState::empty(h, BlockHash([0; 32])),
+                    prior_sapling_roots: match roots_before {
+                        Some(d) => vec![CommitmentTreeRoot::from_parts(h + 1 - d, sapling::Node::from_scalar(jubjub::Fq::one()))],
+                        None => vec![],
+                    },
+                    prior_orchard_roots: vec![],
+                }
+            })
+            .with_account_having_current_birthday()
+            .build()
+        }
+    }
+
+    pub fn put_roots(st: &mut St, sap_start: u64, sap_ends: &[u32], orc_start: u64, orc_ends: &[u32]) {
+        let sr: Vec<_> = sap_ends
+            .iter()
+            .map(|h| CommitmentTreeRoot::from_parts(BlockHeight::from(*h), sapling::Node::from_scalar(jubjub::Fq::one())))
+            .collect();
+        let _ = catch(|| st.wallet_mut().put_sapling_subtree_roots(sap_start, &sr));
+        use incrementalmerkletree::Hashable;
+        let or: Vec<_> = orc_ends
+            .iter()
+            .map(|h| CommitmentTreeRoot::from_parts(BlockHeight::from(*h), orchard::tree::MerkleHashOrchard::empty_leaf()))
+            .collect();
+        let _ = catch(|| st.wallet_mut().put_orchard_subtree_roots(orc_start, &or));
+    }
+
+    pub fn rand_prio(rng: &mut Rng) -> ScanPriority {
+        *rng.pick(&PRIOS)
+    }
+}
+
+#[derive(Default)]
+struct QStats {
+    histories: u64,
+    steps: u64,
+    by_op: BTreeMap<String, u64>,
+    outcomes: BTreeMap<String, u64>,
+    queue_len_hist: BTreeMap<usize, u64>,
+    loops: u64,
+    loop_steps_max: u64,
+}
+
+fn qstep(qs: &mut QStats, st: &mut qb::St, op: &qb::Op) -> &'static str {
+    let c = qb::ctx(st);
+    let pre = qb::queue(st.wallet().conn());
+    let (post, kind) = qb::exec(st, op);
+    let sugg = qb::suggest(st);
+    let now = qb::queue(st.wallet().conn());
+    qs.steps += 1;
+    let name = match op {
+        qb::Op::Tip(_) => "tip",
+        qb::Op::Scan { sap, orc, .. } => if sap.is_empty() && orc.is_empty() { "scan" } else { "scan-with-notes" },
+        qb::Op::Rescan(..) => "rescan",
+        qb::Op::Prune(..) => "prune",
+    };
+    *qs.by_op.entry(name.into()).or_default() += 1;
+    *qs.outcomes.entry(kind.into()).or_default() += 1;
+    *qs.queue_len_hist.entry(now.len()).or_default() += 1;
+    case(format!(
+        "QStep {} {} {} {} {}",
+        c,
+        list(pre.iter().map(|r| r.coq())),
+        op.coq(),
+        post,
+        sugg
+    ));
+    kind
+}
+
+fn part_b_low(qs: &mut QStats, a: &Args) {
+    let mut rng = Rng::new(a.seed, 1501);
+    let n_hist = a.budget(24, 300);
+    let act = 100_000u32;
+    // boundary histories (always in the corpus)
+    {
+        // chain tip reported below the wallet birthday, below/at Sapling activation
+        let mut st = qb::build(500, None);
+        qs.histories += 1;
+        for t in [act - 1, act, act + 100, act + 498, act + 499, act + 500, act + 501] {
+            qstep(qs, &mut st, &qb::Op::Tip(t));
+        }
+        // the same with completed-shard metadata below the birthday
+        let mut st = qb::build(500, Some(10));
+        qs.histories += 1;
+        for t in [act + 100, act + 489, act + 490, act + 498, act + 499, act + 500] {
+            qstep(qs, &mut st, &qb::Op::Tip(t));
+        }
+        // queue_rescans with an empty range that is not last: the tree's known finding through the wallet API
+        let mut st = qb::build(0, None);
+        qs.histories += 1;
+        qstep(qs, &mut st, &qb::Op::Tip(act + 50));
+        qstep(qs, &mut st, &qb::Op::Rescan(vec![(act + 51, act + 51), (act, act + 51)], ScanPriority::Verify));
+        qstep(qs, &mut st, &qb::Op::Rescan(vec![(act, act + 51), (act + 51, act + 51)], ScanPriority::Verify));
+        qstep(qs, &mut st, &qb::Op::Rescan(vec![(act + 10, act + 10)], ScanPriority::FoundNote));
+        // scanning the u32 boundary, empty scan range, scan beyond the covered interval (island)
+        qstep(qs, &mut st, &qb::Op::Scan { s: act + 20, e: act + 20, sap: vec![], orc: vec![], prime: false });
+        qstep(qs, &mut st, &qb::Op::Scan { s: act + 200, e: act + 210, sap: vec![], orc: vec![], prime: false });
+        qstep(qs, &mut st, &qb::Op::Tip(u32::MAX - 1));
+        qstep(qs, &mut st, &qb::Op::Tip(u32::MAX));
+    }
+    for hix in 0..n_hist {
+        let offset = match hix % 4 {
+            0 => 0,
+            1 => rng.range(1, 50) as u32,
+            _ => rng.range(50, 3000) as u32,
+        };
+        let roots_before = if offset > 20 && rng.chance(1, 2) { Some(rng.range(1, 15) as u32) } else { None };
+        let mut st = qb::build(offset, roots_before);
+        qs.histories += 1;
+        let bday = act + offset;
+        let mut tip = bday + rng.range(0, 40) as u32;
+        let nops = rng.range(6, 16);
+        for k in 0..nops {
+            let qrows = qb::queue(st.wallet().conn());
+            let hi = qrows.last().map(|r| r.e).unwrap_or(bday);
+            let lo = qrows.first().map(|r| r.s).unwrap_or(act);
+            let choice = if k == 0 { 0 } else { rng.below(100) };
+            let op = if choice < 30 {
+                // chain tip moves: mostly forward, sometimes far, sometimes backwards
+                tip = match rng.below(10) {
+                    0 => tip.saturating_sub(rng.range(1, 30) as u32),
+                    1 | 2 => tip + rng.range(90, 400) as u32,
+                    3 => tip,
+                    _ => tip + rng.range(1, 60) as u32,
+                };
+                qb::Op::Tip(tip)
+            } else if choice < 75 {
+                // scan: a prefix/suffix/all of the first suggested range, or a random range inside the coverage
+                let sg = qb::suggested(&st);
+                let (s, e) = if !sg.is_empty() && rng.chance(4, 5) {
+                    let r = &sg[if rng.chance(4, 5) { 0 } else { rng.below(sg.len() as u64) as usize }];
+                    let (s, e) = (u32::from(r.block_range().start), u32::from(r.block_range().end));
+                    let len = rng.range(1, (e - s).min(150) as u64) as u32;
+                    match rng.below(3) {
+                        0 => (s, s + len),
+                        1 => (e - len, e),
+                        _ => (s, e.min(s + 400)),
+                    }
+                } else {
+                    let s = rng.range(lo as u64, hi.max(lo + 1) as u64 - 1) as u32;
+                    (s, (s + rng.range(1, 30) as u32).min(hi.max(s + 1)))
+                };
+                let mut sap = vec![];
+                let mut orc = vec![];
+                if rng.chance(1, 3) {
+                    for _ in 0..rng.range(1, 2) {
+                        sap.push(rng.range(0, 3) * 65536 + rng.below(65536));
+                    }
+                    if rng.chance(1, 3) {
+                        orc.push(rng.range(0, 2) * 65536 + rng.below(65536));
+                    }
+                }
+                qb::Op::Scan { s, e, sap, orc, prime: rng.chance(5, 6) }
+            } else if choice < 83 {
+                // subtree roots become known (no queue op; changes the context)
+                let base = lo.max(act);
+                let e0 = base + rng.range(0, (hi - base).max(1) as u64) as u32;
+                let e1 = e0 + rng.range(1, 200) as u32;
+                let e2 = e1 + rng.range(1, 200) as u32;
+                let n = rng.range(1, 3) as usize;
+                let orc_n = rng.range(0, 2) as usize;
+                qb::put_roots(&mut st, 0, &[e0, e1, e2][..n], 0, &[e0 + 3, e1 + 5][..orc_n]);
+                continue;
+            } else if choice < 93 {
+                let n = rng.range(1, 3);
+                let mut v = vec![];
+                for _ in 0..n {
+                    let s = rng.range(lo as u64, hi as u64) as u32;
+                    let e = s + rng.range(1, 50) as u32;
+                    v.push((s, e.min(hi.max(s + 1))));
+                }
+                qb::Op::Rescan(v, qb::rand_prio(&mut rng))
+            } else {
+                let h = rng.range(lo as u64, hi as u64 + 5) as u32;
+                let retain = if rng.chance(1, 4) { None } else { Some(qb::rand_prio(&mut rng)) };
+                qb::Op::Prune(h, retain)
+            };
+            qstep(qs, &mut st, &op);
+        }
+    }
+}
+
+/// The client loop on real (empty) blocks: take the first suggested range, scan a non-empty
+/// prefix or suffix of it, until nothing is suggested. Step bound = number of blocks.
+fn part_b_loop(qs: &mut QStats, a: &Args) {
+    use zcash_client_backend::data_api::{WalletRead, WalletWrite};
+    let mut rng = Rng::new(a.seed, 1502);
+    let n = a.budget(4, 40);
+    for i in 0..n {
+        let mut st = qb::build(0, None);
+        let act = 100_000u32;
+        let nblocks = rng.range(8, if a.thorough() { 120 } else { 40 }) as u32;
+        for _ in 0..nblocks {
+            st.generate_empty_block();
+        }
+        let tip0 = act + nblocks - 1;
+        // the tip is announced in one or two instalments
+        let first_tip = if i % 2 == 0 { tip0 } else { act + rng.range(0, nblocks as u64 - 1) as u32 };
+        let mut announced = first_tip;
+        qstep(qs, &mut st, &qb::Op::Tip(first_tip));
+        let mut steps = 0u64;
+        let mut rewinds = 0;
+        let mut rewound = 0u32;
+        let bound = (nblocks as u64) * 2 + 4;
+        loop {
+            let sg = qb::suggested(&st);
+            if sg.is_empty() {
+                if announced < tip0 {
+                    announced = tip0;
+                    qstep(qs, &mut st, &qb::Op::Tip(tip0));
+                    continue;
+                }
+                break;
+            }
+            if steps > bound {
+                break;
+            }
+            let r = &sg[0];
+            let (s, e) = (u32::from(r.block_range().start), u32::from(r.block_range().end));
+            let avail_e = e.min(announced + 1).min(tip0 + 1);
+            let len = rng.range(1, (avail_e - s).max(1) as u64) as u32;
+            let (from, cnt) = if rng.bool() { (s, len) } else { (avail_e - len, len) };
+            // real scanning: put_blocks -> scan_complete; observed as one queue step
+            let c = qb::ctx(&st);
+            let pre = qb::queue(st.wallet().conn());
+            let res = catch(|| st.try_scan_cached_blocks(BlockHeight::from(from), cnt as usize).map(|_| ()).map_err(|e| format!("{:?}", e)));
+            let post = match &res {
+                Some(Ok(())) => ok(list(qb::queue(st.wallet().conn()).iter().map(|r| r.coq()))),
+                Some(Err(_)) => err("OtherErr"),
+                None => PANIC.into(),
+            };
+            qs.steps += 1;
+            *qs.by_op.entry("scan-real".into()).or_default() += 1;
+            case(format!(
+                "QStep {} {} (OpScan {} {} [] [] []) {} {}",
+                c,
+                list(pre.iter().map(|r| r.coq())),
+                from,
+                from + cnt,
+                post,
+                qb::suggest(&st)
+            ));
+            steps += 1;
+            if !matches!(res, Some(Ok(()))) {
+                break;
+            }
+            // occasionally a rewind (reorg handling), at most twice per history
+            if rewinds < 2 && rng.chance(1, 6) {
+                if let Some(ms) = qb::max_scanned(&st) {
+                    let target = ms.saturating_sub(rng.range(0, 5) as u32).max(act);
+                    let c = qb::ctx(&st);
+                    let pre = qb::queue(st.wallet().conn());
+                    let r = catch(|| st.wallet_mut().truncate_to_height(BlockHeight::from(target)));
+                    if let Some(Ok(h)) = r {
+                        rewinds += 1;
+                        rewound += ms.saturating_sub(u32::from(h));
+                        let post = ok(list(qb::queue(st.wallet().conn()).iter().map(|r| r.coq())));
+                        qs.steps += 1;
+                        *qs.by_op.entry("truncate".into()).or_default() += 1;
+                        case(format!(
+                            "QStep {} {} (OpTrim {}) {} {}",
+                            c,
+                            list(pre.iter().map(|r| r.coq())),
+                            u32::from(h),
+                            post,
+                            qb::suggest(&st)
+                        ));
+                        // the client learns the tip again
+                        qstep(qs, &mut st, &qb::Op::Tip(announced));
+                    }
+                }
+            }
+        }
+        let fully = st.wallet().block_fully_scanned().ok().flatten().map(|m| u32::from(m.block_height()));
+        qs.loops += 1;
+        qs.loop_steps_max = qs.loop_steps_max.max(steps);
+        case(format!(
+            "QLoop {} {} {} {} {} {} {}",
+            act,
+            tip0,
+            steps,
+            rewound,
+            list(qb::queue(st.wallet().conn()).iter().map(|r| r.coq())),
+            qb::suggest(&st),
+            opt(fully.map(|x| x.to_string()))
+        ));
+    }
 }
